@@ -152,3 +152,93 @@ class GuardAnalysis:
             transfer(nid, IN[nid], True)
         exit_fact = IN.get(fl.exit.id, True) if fl.exit.id in reach else True
         return list(viol.values()), exit_fact
+
+
+# --------------------------------------------------------------------------
+# GUARD-STABLE: a typestate guard must not read state written earlier in the same public call
+
+
+def reads_of(E: Engine, c: Callable_, _seen: Optional[set] = None) -> set:
+    """State regions (owner, field) read -- attribute loads and hasattr(x, "f") -- by a callable, transitively."""
+    _seen = _seen if _seen is not None else set()
+    if c.key in _seen:
+        return set()
+    _seen.add(c.key)
+    cache = getattr(E, "_reads_cache", None)
+    if cache is None:
+        cache = E._reads_cache = {}  # type: ignore[attr-defined]
+    fl = E.flow(c)
+    out: set = set()
+    for n in ast.walk(c.fn.node):
+        if isinstance(n, ast.Attribute) and isinstance(n.ctx, ast.Load):
+            for owner, fld in fl.field_of(n):
+                if E.is_state_region(owner):
+                    out.add((owner, fld))
+        if isinstance(n, ast.Call) and (dotted(n.func) or "") == "hasattr" and len(n.args) == 2 and isinstance(n.args[1], ast.Constant):
+            for cl in E.R.classes_of(E.R.type_of(n.args[0], fl.ctx)):
+                if E.is_state_region(cl.qualname):
+                    out.add((cl.qualname, n.args[1].value))
+    for _n, _i, e in fl.all_events():
+        for cal, _m in e.callees:
+            out |= reads_of(E, cal, _seen)
+    return out
+
+
+def writes_before_guard(E: Engine, c: Callable_, spec: GuardSpec) -> list[dict]:
+    """For every guard test reachable from the entry of ``c``: the state regions that may already have been
+    written (in this very call) when the guard is evaluated."""
+    results: list[dict] = []
+    seen: set = set()
+
+    def run(cal: Callable_, w_in: frozenset, chain: tuple) -> frozenset:
+        key = (cal.key, w_in)
+        if key in seen or len(chain) > 12:
+            return w_in
+        seen.add(key)
+        fl = E.flow(cal)
+        nodes = fl.nodes
+        reach = {fl.entry.id} | fl.reachable_from(fl.entry.id)
+        IN = {i: frozenset() for i in reach}
+        OUT = {i: frozenset() for i in reach}
+
+        def transfer(nid: int, w: frozenset, record: bool) -> frozenset:
+            node = nodes[nid]
+            if record and spec.node_establishes(fl, node):
+                # the test's own events are evaluated first
+                w_at = w
+                for e in node.events:
+                    sw, _r = E.S.event_effects(fl, node, e)
+                    w_at = w_at | frozenset((x.owner, x.field) for x in E.state_writes(sw) if x.root != "fresh")
+                results.append({"function": cal.fn.short, "via": list(chain) + [cal.fn.short], "written": w, "where": E.where(cal.fn, node.stmt)})
+            for e in node.events:
+                if e.kind in ("call", "getprop", "setprop"):
+                    for sub, m in e.callees:
+                        if m != "ctor" and record:
+                            run(sub, w, chain + (cal.fn.short,))
+                sw, _r = E.S.event_effects(fl, node, e)
+                w = w | frozenset((x.owner, x.field) for x in E.state_writes(sw) if x.root != "fresh")
+            return w
+
+        changed = True
+        it = 0
+        order = sorted(reach)
+        while changed and it < 50:
+            changed = False
+            it += 1
+            for nid in order:
+                if nid == fl.entry.id:
+                    new_in = w_in
+                else:
+                    ps = [p for p in nodes[nid].pred if p in reach]
+                    new_in = frozenset().union(*(OUT[p] for p in ps)) if ps else frozenset()
+                out = transfer(nid, new_in, False)
+                if new_in != IN[nid] or out != OUT[nid]:
+                    IN[nid], OUT[nid] = new_in, out
+                    changed = True
+        for nid in order:
+            transfer(nid, IN[nid], True)
+        return OUT.get(fl.exit.id, w_in)
+
+    E.prepare_summaries()
+    run(c, frozenset(), ())
+    return results
